@@ -146,6 +146,14 @@ _MORE = {
     "C14": " Third round: for ANY path text what item access resolves to a field, reduce / sort_values / dropna resolve to the same field (Proofs_Names2).",
     "C19": " Third round: a list-of-structs input of any chunking and offsets base is stored with exactly its records.",
 }
-for _pid, _t in _MORE.items():
-    if _pid in CLAIMED:
-        CLAIMED[_pid] = (CLAIMED[_pid][0] + _t,) + CLAIMED[_pid][1:]
+# rounds seven to nine
+_MORE2 = {
+    "C01": " Later rounds: a cast between nested dtypes as an entry point (Cast.v: widening refused as soon as a kept field holds an element, the column's own dtype an identity, a selection / re-ordering = the field selection); the packing of list columns - also of reduce's dotted outputs - refused when ragged whatever the chunking, stored when validation is skipped (refuted witness).",
+    "C03": " Later rounds: the per-row numpy view iter_field_lists (NumpyView.v): row by row a function of the logical column, the dtype of a row decided by that row alone; the accessor read as a Mapping and after pandas in-place operations on the series (stream).",
+    "C04": " Later rounds: the arrays handed to reduce's user function do not depend on the chunking; a whole-chunk conversion would (refuted witness).",
+    "C05": " Later rounds: an offered table becomes a row by field NAME, whatever the order of its columns (Box.v; boxing by position refuted); iteration, len and access by position as an operation of the stream.",
+}
+for _m in (_MORE, _MORE2):
+    for _pid, _t in _m.items():
+        if _pid in CLAIMED:
+            CLAIMED[_pid] = (CLAIMED[_pid][0] + _t,) + CLAIMED[_pid][1:]
